@@ -250,6 +250,13 @@ def group_S():
             if op in ("ISSUBSET", "ISSUPERSET", "LIKE") and not c.startswith("'"):
                 continue
             out.append("[ipv4-addr:value %s %s]" % (op, c))
+    # prefix lengths that end INSIDE a byte: networks that differ only in the network bits of that byte, and spellings that differ only in host bits of it
+    for c in ["'10.1.128.0/17'", "'10.1.0.0/17'", "'10.1.128.5/17'", "'10.1.255.255/17'", "'172.16.0.0/12'", "'172.32.0.0/12'", "'172.31.9.9/12'", "'192.0.0.0/3'", "'224.0.0.0/3'", "'128.0.0.0/1'", "'0.0.0.0/1'",
+              "'10.1.2.128/25'", "'10.1.2.0/25'", "'10.1.2.255/31'", "'10.1.2.254/31'", "'10.1.2.253/31'"]:
+        for op in ("=", "ISSUBSET"):
+            out.append("[ipv4-addr:value %s %s]" % (op, c))
+    for c in ["'fe80::/10'", "'fec0::/10'", "'febf::1/10'", "'2001:db8:8000::/33'", "'2001:db8::/33'", "'2001:db8:ffff::/33'", "'2001:db8::1/127'", "'2001:db8::2/127'", "'2001:db8::3/127'"]:
+        out.append("[ipv6-addr:value = %s]" % c)
     out += ["[ipv4-addr:value IN ('198.51.100.5', '198.51.100.0/24')]", "[ipv4-addr:value IN ('198.51.100.77/24', '198.51.100.5/32')]", "[ipv4-addr:value IN (1, 2)]", "[ipv4-addr:value NOT IN ('198.51.100.5')]"]
     for c in ["'2001:db8::1'", "'2001:db8::1/128'", "'2001:db8::/32'", "'2001:db8:0:0::5/32'", "'2001:DB8::1'", "'2001:0db8:0000::0001'", "1", "'zz'", "'2001:db8::1/129'"]:
         for op in ("=", "ISSUBSET"):
